@@ -30,7 +30,7 @@ IdSeqs == {<<>>} \cup {<<i>> : i \in Ids} \cup {<<p[1], p[2]>> : p \in {q \in Id
 Calls ==
      {Blank @@ [a |-> "AddVerifier", c |-> c, v |-> v, amt |-> am] : c \in {Root, "c1"}, v \in (IF Rich THEN Verifs \cup {"c1"} ELSE {"v1", "c1"}), am \in (IF Rich THEN {MinSize - 1, 2 * MinSize} ELSE {2 * MinSize})}
   \cup {Blank @@ [a |-> "RemoveVerifier", c |-> c, v |-> v] : c \in {Root, "v1"}, v \in {"v1"}}
-  \cup {Blank @@ [a |-> "AddClient", c |-> c, cl |-> cl, amt |-> am] : c \in (IF Rich THEN Verifs \cup {"c1"} ELSE {"v1", "c1"}), cl \in (IF Rich THEN Clients \cup {"v2"} ELSE {"c1", "v1"}), am \in (IF Rich THEN {MinSize, 2 * MinSize} ELSE {2 * MinSize})}
+  \cup {Blank @@ [a |-> "AddClient", c |-> c, cl |-> cl, amt |-> am] : c \in (IF Rich THEN Verifs \cup {"c1"} ELSE {"v1", "c1"}), cl \in (IF Rich THEN Clients \cup {"v2", "m1"} ELSE {"c1", "v1", "m1"}), am \in (IF Rich THEN {MinSize, 2 * MinSize} ELSE {2 * MinSize})}
   \cup {Blank @@ [a |-> "RemoveDataCap", c |-> Root, cl |-> "c1", amt |-> MinSize, v1 |-> "v1", v2 |-> v2, sig1OK |-> TRUE, sig2OK |-> s2, removed |-> 0] :
           v2 \in (IF Rich THEN Verifs ELSE {}), s2 \in BOOLEAN}
   \cup {Blank @@ [a |-> "Transfer", c |-> c, to |-> to, amt |-> am, allocs |-> al, exts |-> ex, ids |-> <<>>] :
